@@ -260,7 +260,7 @@ fn run(cfg: &Cfg) -> Report {
         cfg,
         "proptest instants (second + nanosecond) over the whole supported range -9999..9999 with emphasis on the present (DST transitions, leap days) and on both ends of the range, placed in one of 16 IANA zones (incl. 30/45-minute offsets, LMT-era offsets, date-line changes); durations mantissa x 10^k in 14 time units from ns to centuries, both signs, from sub-nanosecond to far out of range. Oracle: t + d equals the instant computed independently in integer nanoseconds; (t+d)-t = d and (t+d)-d = t within 1 ns + 4 ulp of d in seconds; converting to a second zone leaves the instant (difference exactly 0, identical UTC rendering, which also equals the constructed civil time); `format_datetime(\"%Y-%m-%d %H:%M:%S%.9f %z\")` parsed back gives difference 0; a result clearly beyond the range must be DateTimeOutOfRange/DurationOutOfRange and a result clearly inside must succeed. non-trivial = non-UTC zone, sub-second part, |d| > 1 day, or an out-of-range case; distinct = (t, zone, d)",
     );
-    let cases = cfg.tier.pick(3000u32, 30000u32);
+    let cases = cfg.tier.pick(8000u32, 60000u32);
     rep.absorb(run_proptest(
         cfg,
         "datetime",
